@@ -1337,6 +1337,9 @@ impl Archive {
                         }
                     }
                 }
+                // An I/O error is not a damaged listfile: report it instead of silently
+                // switching to anonymous names
+                Err(Error::Io(e)) => return Err(Error::Io(e)),
                 Err(e) => {
                     log::warn!(
                         "Failed to read (listfile): {e}. Falling back to anonymous enumeration."
